@@ -2,7 +2,7 @@
    implementation's chain snapshots (kind 2). *)
 From stdpp Require Import list.
 From Coq Require Import ZArith.
-From Verif Require Import S2.Model S2.Replay C01.Spec C01.Replay C02.Spec C02.Truncated.
+From Verif Require Import S2.Model S2.Replay C01.Spec C01.Replay C02.Spec C02.SpecH C02.Truncated.
 Open Scope Z_scope.
 
 Definition chain_hdrs (tbl : list header) (c : list Z) : option (list header) :=
@@ -11,9 +11,33 @@ Definition chain_hdrs (tbl : list header) (c : list Z) : option (list header) :=
 
 Definition hashes_eqb (a b : list header) : bool := list_eqb Z.eqb (map hid a) (map hid b).
 
+(* the peers as the handler's peer condition sees them: announced height from
+   the observation, starting height from the ONewPeer operation that brought
+   the peer in (a restart forgets them) *)
+Definition obs_peers (ps : list (Z * Z * bool)) (starts : list (Z * Z)) : list peer :=
+  map (fun q => {| pid := q.1.1; lastBlock := q.1.2;
+                   startH := match list_find (fun e => e.1 = q.1.1) starts with Some (_, e) => e.2 | None => 0 end;
+                   disc := q.2; fullnode := true |}) ps.
+Definition upd_starts (o : op) (starts : list (Z * Z)) : list (Z * Z) :=
+  match o with
+  | ONewPeer p st _ _ => (p, st) :: filter (fun e => e.1 <> p) starts
+  | ORestart => []
+  | _ => starts
+  end.
+
 (* result: (step, tag); tag 27 = the change is illegal only as the known
-   finding F27 describes (reorg truncated at the next checkpoint) *)
-Fixpoint first_bad (P : params) (tbl : list header) (prev : list Z) (i : Z) (tr : list (op * obs)) : option (Z * Z) :=
+   finding F27 describes (reorg truncated at the next checkpoint).
+   A message is judged on the implementation's own chain before it:
+   - the change must be legal (classify);
+   - a fully valid batch extending the tip must be adopted (must_adopt);
+   - a fully valid, strictly heavier branch forking at or above the newest
+     reached checkpoint from a peer the handler listens to must be adopted
+     (must_adopt_reorg, sound by C02_monitor_reorg_sound), whenever the
+     message is shorter than the in-memory window (hypothesis wf_hist).
+   Messages handled under a store write fault are C01's and C19's subject. *)
+Fixpoint first_bad (P : params) (tbl : list header) (prev : list Z)
+         (psync : option Z) (ppeers : list (Z * Z * bool)) (starts : list (Z * Z))
+         (i : Z) (tr : list (op * obs)) : option (Z * Z) :=
   match tr with
   | [] => None
   | (o, ob) :: rest =>
@@ -22,21 +46,32 @@ Fixpoint first_bad (P : params) (tbl : list header) (prev : list Z) (i : Z) (tr 
       match chain_hdrs tbl prev, chain_hdrs tbl (o_chain ob) with
       | Some before, Some after =>
         match o with
-        | OHeaders _ now msg =>
+        | OHeaders p now msg =>
           let adopt_ok := match must_adopt P now before msg with
                           | Some expect => hashes_eqb after expect
                           | None => true
                           end in
-          if legal (classify P before after msg) then (if adopt_ok then 0 else 1)
+          let listened := listened_to P now (obs_state before psync (obs_peers ppeers starts)) p in
+          let reorg_ok := if zlen msg <? memCap P then
+                            match must_adopt_reorg P now before msg listened with
+                            | Some expect => hashes_eqb after expect
+                            | None => true
+                            end
+                          else true in
+          if negb (adopt_ok && reorg_ok) then 1
+          else if legal (classify P before after msg) then 0
           else if reorg_truncated_atb P now before after msg then 27 else 1
+        | OHeadersF _ _ _ _ => 0
         | _ => if hashes_eqb before after then 0 else 1    (* nothing but a headers message changes the chain *)
         end
       | _, _ => 1
       end in
-    if verdict =? 0 then first_bad P tbl (o_chain ob) (i + 1) rest
+    let starts' := upd_starts o starts in
+    let next := first_bad P tbl (o_chain ob) (o_sync ob) (o_peers ob) starts' (i + 1) rest in
+    if verdict =? 0 then next
     else if verdict =? 27 then
       (* report the known finding, but keep judging the rest of the trace *)
-      match first_bad P tbl (o_chain ob) (i + 1) rest with
+      match next with
       | Some (j, 27) => Some (i, 27)
       | Some r => Some r
       | None => Some (i, 27)
@@ -46,7 +81,7 @@ Fixpoint first_bad (P : params) (tbl : list header) (prev : list Z) (i : Z) (tr 
 
 Definition monitor_row (c : bcase) : list (Z * Z * Z * Z) :=
   let P := bparams c in
-  match first_bad P [genesis P] [hid (genesis P)] 0 (btrace c) with
+  match first_bad P [genesis P] [hid (genesis P)] None [] [] 0 (btrace c) with
   | Some (i, t) => [(bid c, 2, i, t)]
   | None => []
   end.
